@@ -71,6 +71,10 @@ TextsOf(p) ==
           ELSE IF \E n \in DOMAIN p : p[n].k = "custom" THEN <<Inst(p, 3)>> ELSE <<>>)
       \o (IF i = 0 THEN <<>> ELSE <<Inst(WithLit(p, Cap(p[i].w)), 1), Inst(WithLit(p, XX), 1)>>)
       \o << <<Oh>> \o base, base \o <<Oh>> >>
+      \* ... and the pattern's own text used as a step text ("go {x}", "go (?P<x>.+?)"): a text like any other -- it is
+      \* bound only if the pattern matches it, with the arguments that match extracts
+      \o (IF Renderable(p, "parse") THEN <<Split(Render(p, "parse"))>> ELSE <<>>)
+      \o (IF Renderable(p, "re") THEN <<Split(Render(p, "re"))>> ELSE <<>>)
 
 \* ---------------------------------------------------------------- pattern pools
 X == <<"x">>
